@@ -359,16 +359,14 @@ MC_JOBS = {
                  ("MC_Build", "MC_Build_gen4"), ("MC_Build", "MC_Build_gen_thorough")],
 }
 # how many exported designspaces of each configuration are replayed against the real code (quick, thorough)
-REPLAY_BUDGET = {"MC_Build": (80, 1500), "MC_Build2": (50, 600), "MC_Build3": (50, 500), "MC_Build_gen": (90, 2000),
-                 "MC_Build_gen4": (80, 1500), "MC_Build_thorough": (110, 1500), "MC_Build2_thorough": (70, 1000),
-                 "MC_Build2b_thorough": (0, 800), "MC_Build2c_thorough": (0, 800), "MC_Build3_thorough": (70, 800),
-                 "MC_Build_gen_thorough": (0, 800)}
+REPLAY_BUDGET = {"MC_Build": (80, 800), "MC_Build2": (50, 600), "MC_Build3": (50, 500), "MC_Build_gen": (90, 1000),
+                 "MC_Build_gen4": (80, 800), "MC_Build_thorough": (80, 800), "MC_Build2_thorough": (50, 600),
+                 "MC_Build2b_thorough": (0, 400), "MC_Build2c_thorough": (0, 500), "MC_Build3_thorough": (50, 500),
+                 "MC_Build_gen_thorough": (0, 400)}
 WANT_MASK = 1 | 2 | 4 | 8 | 16 | 32 | 64
 
 
 def run_mc(chk):
-    from concurrent.futures import ThreadPoolExecutor
-
     cache = os.environ.get("VERIF_C10_GEN_CACHE")   # development aid only: replay without re-running (M)
     if cache and os.path.exists(cache):
         chk.notes["MC_Build"] = "SKIPPED (development run with cached designspaces)"
@@ -377,13 +375,34 @@ def run_mc(chk):
 
     jobs = MC_JOBS[chk.tier]
 
-    def one(job):
-        k, (mod, cfg) = job
-        time.sleep(0.5 * k)
-        return chk.tlc(mod, cfg=cfg, label=cfg, timeout=3000, workers=4)
+    # chk.tlc numbers its scratch files from a shared counter at entry: start the runs one after the
+    # other, each only once the previous one has taken its number
+    res = [None] * len(jobs)
+    errs = []
 
-    with ThreadPoolExecutor(len(jobs)) as ex:
-        res = list(ex.map(one, enumerate(jobs)))
+    def one(k):
+        mod, cfg = jobs[k]
+        try:
+            res[k] = chk.tlc(mod, cfg=cfg, label=cfg, timeout=3000, workers=4)
+        except BaseException as e:  # re-raised in the main thread
+            errs.append(e)
+
+    import threading
+
+    threads = []
+    for k in range(len(jobs)):
+        n0 = chk._nrun
+        th = threading.Thread(target=one, args=(k,))
+        th.start()
+        threads.append(th)
+        t1 = time.time()
+        while chk._nrun == n0 and th.is_alive() and time.time() - t1 < 60:
+            time.sleep(0.05)
+        time.sleep(0.5)
+    for th in threads:
+        th.join()
+    if errs:
+        raise errs[0]
     gens = []
     seen = 0
     counts = {}
@@ -448,18 +467,8 @@ def judge_and_report(chk, results):
             chk.nontriv(("build", t["src"], common.digest([t["axes"], t["srcs"], t.get("case")])))
     chk.count(ncmp)
     chk.notes["hb_records"] = chk.notes.get("hb_records", 0) + sum(len(t.get("hb", [])) for t in traces)
-    from concurrent.futures import ThreadPoolExecutor
-
     payload = [dict(strip(t), i=i) for i, t in enumerate(traces)]
-    if len(payload) > 600:
-        def part(k):
-            time.sleep(0.5 * k)
-            return chk.judge("Trace_C10", payload[k::3], chunk=4000, timeout=3000, workers=6, heap="5g")
-
-        with ThreadPoolExecutor(3) as ex:
-            rej0 = [x for p in ex.map(part, range(3)) for x in p]
-    else:
-        rej0 = chk.judge("Trace_C10", payload, chunk=4000, timeout=3000, workers=16, heap="6g")
+    rej0 = chk.judge("Trace_C10", payload, chunk=1500, timeout=3000, workers=16, heap="6g")
     rej = [(traces[t["i"]], c) for t, c in rej0]
     notes = {}
     for t, clause in rej:
@@ -587,7 +596,7 @@ def selftest(chk):
         r = chk.tlc("MC_Build", cfg="MC_Build2", label="MC_Build2", timeout=1500)
         gens = [(p[0], p[1]) for p in r.prints.get("GEN", [])]
     rng = random.Random(11)
-    pool = [(js, m) for js, m in gens if (m & 4) and (m & 3) and not (m & 32) and len(json.loads(js)["srcs"]) >= 3]
+    pool = [(g[0], g[1]) for g in gens if (g[1] & 4) and (g[1] & 3) and not (g[1] & 32) and len(json.loads(g[0])["srcs"]) >= 3]
     good, bad = [], []
     for k, (js, mask) in enumerate(rng.sample(pool, 3)):
         case = dict(json.loads(js), id="self%d" % k, mask=mask, seed=k, sparse_style=["subset", "empty"][k % 2], class_kern=True,
